@@ -103,6 +103,11 @@ Additions (Cmeta package; none changes the output of a spec that does not use th
    `← (xs).mapM (fun x => …)` (python evaluates the elements in order and the first exception ends it: `List.mapM`);
  * `'emit_defaults': [param, …]`: the default values of these python parameters are emitted as
    `def <lean_name>_default_<param> := <translation>` so that call-site templates can pass them explicitly.
+
+Additional generic rules: a list comprehension whose element is monadic (contains `←`) becomes
+`(← xs.mapM (fun x => do return elt))`; a set display `{a, b}` becomes the list `[a, b]` (membership tests only);
+spec key `for_body: k` translates the body of the k-th `for` statement as a step function over `loop_state`;
+spec key `mutable_params: [p]` declares `let mut p := p` for a parameter the function re-binds.
 """
 import ast
 import copy
@@ -303,7 +308,14 @@ class Fn:
             v = self.target_text(g.target)
             for c in g.ifs:
                 xs = '((%s).filter (fun %s => %s))' % (xs, v, self.cond(c))
-            return '((%s).map (fun %s => %s))' % (xs, v, self.expr(n.elt))
+            elt = self.expr(n.elt)
+            if '←' in elt:
+                # an element that calls a monadic leaf / a translated function: `[f(x) for x in xs]` -> mapM
+                return '(← (%s).mapM (fun %s => do return %s))' % (xs, v, elt)
+            return '((%s).map (fun %s => %s))' % (xs, v, elt)
+        if isinstance(n, ast.Set):
+            # a set display is only ever tested for membership here: a list with the same elements
+            return '[' + ', '.join(self.expr(e) for e in n.elts) + ']'
         raise TranslationError('no rule and no pattern for the expression `%s` (%s, line %s)'
                                % (src(n), type(n).__name__, getattr(n, 'lineno', '?')))
 
@@ -814,6 +826,12 @@ class Fn:
             loops = [s for s in self.node.body if isinstance(s, ast.While)]
             loop = loops[self.spec['before_while']]
             body = body[:body.index(loop)]
+        if 'for_body' in self.spec:
+            # the body of the k-th `for` statement as a step function over `loop_state` (like `while_body`)
+            loops = [s for s in ast.walk(self.node) if isinstance(s, ast.For)]
+            loop = loops[self.spec['for_body']]
+            body = list(loop.body)
+            self.declared.update(self.target_names(loop.target))
         counts = self.assigned_names(body)
         for nm, depths in counts.items():
             if len(depths) > 1:
@@ -830,7 +848,8 @@ class Fn:
             # a parameter that the body assigns to (`units = self.units.get_unit(units)`), or that the spec lists as
             # `mutable` (re-assigned by a statement pattern), is re-bound as a mutable local
             if (nm in counts or nm in self.spec.get('mutable', [])) and nm not in explicit \
-                    and nm not in self.spec.get('state', []) and 'while_body' not in self.spec:
+                    and nm not in self.spec.get('state', []) and 'while_body' not in self.spec \
+                    and 'for_body' not in self.spec:
                 self.emit(1, 'let mut %s := %s' % (mangle(nm), mangle(nm)))
                 self.mut.add(nm)
         for nm in explicit:
